@@ -59,6 +59,7 @@ type Summary struct {
 	MaxTasks     int
 	Samples      []any
 	WallS        float64
+	NextIdx      int // first run index not covered by this summary (resume point)
 }
 
 // RunSeed derives the seed of run idx.
@@ -106,7 +107,10 @@ func SearchFrom(prop, tier string, seed uint64, worker, workers int, budget time
 		}
 		if progress != "" {
 			os.WriteFile(progress, []byte(fmt.Sprint(idx)), 0o644)
-			if flush != nil && time.Since(lastFlush) > 500*time.Millisecond {
+		}
+		if flush != nil {
+			if time.Since(lastFlush) > 500*time.Millisecond {
+				s.NextIdx = idx
 				s.Hashes = s.Hashes[:0]
 				for h := range seen {
 					s.Hashes = append(s.Hashes, h)
@@ -154,6 +158,7 @@ func SearchFrom(prop, tier string, seed uint64, worker, workers int, budget time
 	}
 	sort.Strings(s.Hashes)
 	s.WallS = time.Since(start).Seconds()
+	s.NextIdx = -1 // complete
 	return s
 }
 
